@@ -566,13 +566,34 @@ def check_format_chunk(ck):
 # C. body bytes only through _format_chunk
 
 
+def fixed_bytes(ck, fi, e):
+    """The bytes an expression denotes when it is a fixed protocol string: a literal, or a name / class attribute bound
+    to one (``_LAST_CHUNK = b"0\\r\\n\\r\\n"``), possibly through an explaining local.  None if it is not fixed."""
+    if e is None:
+        return None
+    cache = ck.__dict__.setdefault("_c02_consts", {})
+    key = (fi.file, fi.qualname.split(".")[0])
+    if key not in cache:
+        env = module_constants(fi)
+        if fi.cls is not None or "." in fi.qualname:
+            try:
+                env.update(class_constants(ck.repo, fi.file, fi.qualname.split(".")[0]))
+            except AnalysisError:
+                pass
+        cache[key] = env
+    v = try_fold(expand_locals(fi, e), cache[key])
+    return v if isinstance(v, bytes) else None
+
+
 def check_stream_writes(ck):
     n_guarded = 0
-    for fi in ck.repo.direct_methods(H1, CONN):
+    for fi0 in ck.repo.direct_methods(H1, CONN):
+        if not any(q.is_call(c, "self.stream.write") for c in q.calls(fi0.node)):
+            continue
+        fi = F(ck, H1, fi0.qualname)
         writes = [c for c in q.calls(fi.node) if q.is_call(c, "self.stream.write")]
         if not writes:
             continue
-        ck.use(fi)
         params = [p for p in fi.params() if p != "self"]
         body_params = [p for p in params if p == "chunk"]
         tainted = tainted_names(fi, body_params, sanitizers=["_format_chunk"]) if body_params else set()
@@ -580,7 +601,7 @@ def check_stream_writes(ck):
             a = q.arg(c, 0, "data")
             if a is None:
                 raise AnalysisError("stream.write without a data argument in %s" % fi.qualname)
-            if isinstance(a, ast.Constant) and isinstance(a.value, bytes):
+            if fixed_bytes(ck, fi, a) is not None:
                 continue  # fixed protocol bytes (100-continue, 400, last-chunk) — judged by their own rules
             if fi.name in ("write", "write_headers"):
                 raw = body_params and _mentions_outside_sanitizer(a, tainted, "_format_chunk")
@@ -592,6 +613,9 @@ def check_stream_writes(ck):
                 ck.ob("C02.body-through-guard", fi, c, uses_guard, "the data written includes _format_chunk(<body>)", construct="stream.write without _format_chunk: " + q.normalize_construct(c, q.local_names(fi.node)))
                 n_guarded += 1
             else:
+                # positive evidence only: the data handed to the stream comes from the method's own parameters
+                if not (set(params) & q.names_in(expand_locals(fi, a))):
+                    raise AnalysisError("%s writes %s to the stream: neither fixed bytes nor data of a parameter (unknown idiom)" % (fi.qualname, q.unparse(a)[:50]))
                 ck.ob("C02.body-through-guard", fi, c, False, "HTTP1Connection writes variable data to the stream only in write()/write_headers()")
     ck.floor("C02.body-through-guard", n_guarded, 2, "guarded stream.write sites")
 
@@ -616,10 +640,9 @@ def check_fixed_writes(ck):
     n = 0
     for node, c in call_sites(fi, "self.stream.write"):
         a = q.arg(c, 0, "data")
-        if not (isinstance(a, ast.Constant) and isinstance(a.value, bytes)):
-            ck.ob("C02.fixed-writes", fi, c, False, "_read_message writes only fixed protocol bytes itself")
-            continue
-        data = a.value
+        data = fixed_bytes(ck, fi, a)
+        if data is None:
+            raise AnalysisError("_read_message writes %s to the stream, which is not a fixed byte string this rule can evaluate" % q.unparse(a)[:50])
         if not data.startswith(b"HTTP/1."):
             ck.ob("C02.fixed-writes", fi, c, False, "fixed bytes written by _read_message are complete status lines")
             continue
@@ -641,11 +664,12 @@ def check_fixed_writes(ck):
 # D. HTTP1Connection.finish
 
 
-def _is_last_chunk(c) -> bool:
+def _is_last_chunk(c, ck=None, fi=None) -> bool:
     from ..rx import Rx
 
     a = q.arg(c, 0, "data")
-    return isinstance(a, ast.Constant) and isinstance(a.value, bytes) and Rx.from_pattern(rb"0+\r\n\r\n").accepts(a.value)
+    v = fixed_bytes(ck, fi, a) if ck is not None else (a.value if isinstance(a, ast.Constant) and isinstance(a.value, bytes) else None)
+    return v is not None and Rx.from_pattern(rb"0+\r\n\r\n").accepts(v)
 
 
 CLOSED = "self.stream.closed()"
@@ -660,7 +684,9 @@ def check_conn_finish(ck):
     known = {m: None for m in pure_self_methods(ck.repo, H1, CONN)}
     writes = [(n, c) for n, c in cfg.find(lambda x: q.is_call(x, "self.stream.write"))]
     for node, c in writes:
-        ck.ob("C02.terminator", fi, c, _is_last_chunk(c), "the only bytes finish() writes are the last-chunk marker 0 CRLF CRLF")
+        if fixed_bytes(ck, fi, q.arg(c, 0, "data")) is None:
+            raise AnalysisError("HTTP1Connection.finish writes %s to the stream, which is not a fixed byte string this rule can evaluate" % q.unparse(q.arg(c, 0, "data"))[:50])
+        ck.ob("C02.terminator", fi, c, _is_last_chunk(c, ck, fi), "the only bytes finish() writes are the last-chunk marker 0 CRLF CRLF")
     term_ids = {}
     for node, c in writes:
         term_ids[node.id] = term_ids.get(node.id, 0) + 1
